@@ -6,6 +6,7 @@ from __future__ import annotations
 
 import copy
 import math
+import random
 import warnings
 from datetime import datetime
 
@@ -29,6 +30,9 @@ REQUIRED_THEOREMS = [
     "Acn.C07.schedule_length", "Acn.C07.sim_period_composition",
     "Acn.C07.sim_consequences_of_schedSafe", "Acn.C07.sortedSched_no_invalidRate", "Acn.C07.zero_sched_safe",
     "Acn.C07.sim_consequences",
+    "Acn.C07.runSt_eq_run", "Acn.C07.runSt_noest_eq_run", "Acn.C07.rampdown_prev_total",
+    "Acn.C07.sim_consequences_of_schedSafe_st", "Acn.C07.rampdown_call_safe",
+    "Acn.C07.sim_consequences_rampdown",
 ]
 BUDGET = {"quick": 900, "thorough": 6000, "search": 1200}
 TRUSTED = [
@@ -53,8 +57,11 @@ RULE = ("a case is an infrastructure (2-9 stations on three line pairs, delta-wy
         "limits are drawn relative to the full-load aggregate so that ~60 % of calls have a binding constraint; "
         "the thorough tier first runs an EXHAUSTIVE small scope (2-3 stations x every kind combination x limit grid x "
         "every occupancy x small/large demand x both algorithms x sorts x uninterrupted, ~30 k calls); "
-        "whole simulations without estimator are ALSO run through the composition model (Sim.run with the modelled "
-        "algorithm as scheduler, AcnModel/SimSorted.lean) and compared (pilots, rates, energies, iteration, error); "
+        "whole simulations are ALSO run through the composition model and compared (pilots, rates, energies, "
+        "iteration, error; with estimator also the estimator's final dict): without estimator Sim.run with the modelled "
+        "algorithm as scheduler (AcnModel/SimSorted.lean), WITH the rampdown estimator the stateful loop "
+        "SimSortedRd.runSt threading the modelled SimpleRampdown from call to call (AcnModel/SimSortedRd.lean; "
+        "thresholds/increment drawn from {0.5,1,2}x{0.5,1,2}x{0.5,1,3}); "
         "constraint-free networks (4 %) and DeadbandEVSE stations (outside the quantifier: modelled, not judged); "
         "non-trivial = some call in which a constraint binds (some session got less than its own upper bound) "
         "or an estimator bound / remaining-demand bound / minimum pilot is the active bound")
@@ -305,6 +312,12 @@ def _gen_sim(rng):
     case = {"mode": "sim", "period": period, "stations": stations, "constraints": cons, "evs": evs,
             "ramp": {"up": 1, "down": 1, "inc": 1}}
     case.update(cfg)
+    if cfg["estimate"]:
+        # estimator thresholds / increment: a deterministic function of what the rng already produced
+        # (a private sub-generator, so the main stream — shared with C08 — is not shifted)
+        sub = random.Random(repr((horizon, period, [(e["arrival"], e["departure"], e["requested"]) for e in evs])))
+        case["ramp"] = {"up": sub.choice([1, 1, 0.5, 2]), "down": sub.choice([1, 1, 0.5, 2]),
+                        "inc": sub.choice([1, 1, 0.5, 3])}
     r = rng.random()
     if r < 0.35 and cons and cfg["algo"] != "uncontrolled":
         # the network is changed UNDER THE SAME CONSTRAINT NAME mid-simulation (post_charging_update hook)
@@ -734,8 +747,10 @@ def model_request(case, obs):
     req = {"algo": case["algo"], "sort": case["sort"], "uninterrupted": case["uninterrupted"],
            "estimate": case["estimate"], "inc": f2b(case["inc"]), "period": f2b(case["period"]),
            "ramp": {k: f2b(v) for k, v in case["ramp"].items()}, "infra": _infra_wire(obs["infra"]), "calls": calls}
-    if case["mode"] == "sim" and not case["estimate"] and not case.get("updates"):
+    if case["mode"] == "sim" and not case.get("updates"):
         # the COMPOSITION: shared simulator model with the modelled algorithm as its scheduler parameter
+        # (without estimator: Sim.run, a pure scheduler; with estimator: SimSortedRd.runSt, the modelled
+        # SimpleRampdown object threaded from call to call — answered by drv_C07 only)
         req["simrun"] = {"stations": [{"id": st["id"], "kind": I.kind_wire(st["evse"]), "V": f2b(st["volt"])}
                                       for st in case["stations"]],
                          "evs": [I.ev_wire(e) for e in case["evs"]], "recomputes": [], "max_recompute": 1,
@@ -779,6 +794,16 @@ def compare_simrun(case, obs, sr):
     for (sid, _req, got), me in zip(obs["energies"], sr["evs"]):
         if sid != me["session"] or not close(got, b2f(me["delivered"])):
             out.append(f"simrun: delivered {sid} impl={got!r} model={me['session']}:{b2f(me['delivered'])!r}")
+    if sr.get("rd_bounds") is not None and ie is None:
+        # the estimator object at the end of the run: SimpleRampdown.upper_bounds vs the threaded model state
+        real = next((c["bounds"] for c in reversed(obs["calls"]) if "bounds" in c), {})
+        mb = {k: b2f(v) for k, v in sr["rd_bounds"]}
+        if sorted(real) != sorted(mb):
+            out.append(f"simrun: estimator keys impl={sorted(real)} model={sorted(mb)}")
+        else:
+            for k in sorted(real):
+                if not close(real[k], mb[k]):
+                    out.append(f"simrun: estimator bound {k} impl={real[k]!r} model={mb[k]!r}")
     return out[:6]
 
 
@@ -1004,7 +1029,13 @@ def features(case, obs):
                 out.append("estimator_has_history")
     if obs["mode"] == "sim":
         out.append("sim_err:" + str(obs["sim_err"])[:30])
-        out.append("simrun_through_adapter:" + str(not case["estimate"] and not case.get("updates")))
+        out.append("simrun_through_adapter:" + str(not case.get("updates")) + (":stateful_estimator" if case["estimate"] else ""))
+        if case["estimate"]:
+            out.append("ramp:%s/%s/%s" % (case["ramp"]["up"], case["ramp"]["down"], case["ramp"]["inc"]))
+            lowered = any(c["err"] is None and any(v < I.num(obs["infra"]["maxp"][obs["infra"]["ids"].index(s["station"])]) - 1e-9
+                                                   for s in c["sessions"] for k, v in c.get("bounds", {}).items() if k == s["session"])
+                          for c in obs["calls"])
+            out.append("sim_estimator_lowered_a_bound:" + str(lowered))
         if case.get("updates"):
             out.append("constraint_updated_mid_simulation")
         if obs.get("roundtrip"):
